@@ -105,9 +105,11 @@ static void judge(Ctx& ctx, const Case& c, bool from_replay) {
   add_tally(ctx, t, geo);
   if (!good) {
     // narrow class of the HI_PRECISION rounding defect (see findings/c03_hp_bbox_rounding.txt): the un-clamped
-    // GetSegmentIntersectPt of that build lands one unit outside the box when |coord| is 2^44 or more
-    if (f.claim == c03::kS3 && f.tags[0] == "outside_by_1" && ctx.cfg_name == "hp" && M >= ((int64_t)1 << 44))
-      f.tags.insert(f.tags.begin(), "hp_build+outside_by_1+M_ge_2^44");
+    // GetSegmentIntersectPt of that build lands a rounding error (at most 1 + M*2^-50 units, i.e. 1 below 2^50 and
+    // 4 at 2^52) outside the box when |coord| is 2^44 or more. Anything farther out, at smaller coordinates or in
+    // another build does not get the tag.
+    if (f.claim == c03::kS3 && ctx.cfg_name == "hp" && M >= ((int64_t)1 << 44) && f.value >= 1 && f.value <= 1.0L + ldexpl((ld)M, -50))
+      f.tags.insert(f.tags.begin(), "hp_build+outside_within_rounding+M_ge_2^44");
     f.tags.push_back("cls_" + cls);
     f.tags.push_back("build_" + ctx.cfg_name);
     ctx.violation(f.claim, f.tags, c, f.detail + " [cls=" + cls + " ct=" + std::to_string(ct) + " fr=" + std::to_string(fr) +
